@@ -103,7 +103,8 @@ def finish(out, keep, cand=None):
         dst = os.path.join(VERIF, "seeded", keep)
         os.makedirs(dst, exist_ok=True)
         for f in ("patch.diff", "demo.py"):
-            shutil.copy(os.path.join(cand, f), dst)
+            if os.path.realpath(cand) != os.path.realpath(dst):
+                shutil.copy(os.path.join(cand, f), dst)
         meta = json.load(open(os.path.join(cand, "meta.json")))
         meta["evaluation"] = {k: out[k] for k in out if k not in ("candidate",)}
         json.dump(meta, open(os.path.join(dst, "meta.json"), "w"), indent=1)
